@@ -207,8 +207,13 @@ class Gen:
             deps = {}
             pool = list(dict.fromkeys([RENAMES.get(n, n) for n in names] + ["zz", "a"]))
             for key in rng.sample(pool, k=min(len(pool), rng.randint(1, 2))):
-                deps[key] = (rng.sample(pool, k=rng.randint(0, 2)) if rng.random() < 0.5
-                             else self.spec(depth - 1))
+                roll = rng.random()
+                if roll < 0.45:
+                    deps[key] = rng.sample(pool, k=rng.randint(0, 2))
+                elif roll < 0.6:
+                    deps[key] = {"t": "Nothing"} if rng.random() < 0.7 else {"t": "Element", "kw": {}}
+                else:
+                    deps[key] = self.spec(depth - 1)
             kw["dependencies"] = deps
         if rng.random() < self.explicit_required:
             pool = list(dict.fromkeys([RENAMES.get(n, n) for n in names] + ["zz", "q"]))
